@@ -318,10 +318,10 @@ function add(a: number, b: number = 2, ...rest: number[]): number {
 
 function ident<T>(v: T): T { return v; }
 
-abstract class Base<T> {
+class Base<T> {
   protected items: T[] = [];
   constructor(public name: string, private n: number = 0) {}
-  abstract size(): number;
+  size(): number { return this.items.length; }
   static make(): void {}
 }
 
@@ -1072,3 +1072,1374 @@ entry:
 }
 '''),
 ]
+
+
+# ---------------------------------------------------------------------------------------------------
+# Feature snippets: small files, one family of constructs each, for syntax the repository corpora lack
+# (computed member names, accessors, generators, static blocks, decorators, nested / local / anonymous
+# classes, labelled statements, pattern matching, ...).  Small on purpose: a frontend failure on one
+# construct must not hide the others (lian skips the whole file then).
+
+FEATURES = {}
+
+FEATURES["javascript"] = [
+    ("ft_computed_members.js", '''const KEY = "k";
+class Bag {
+  static #count = 0;
+  #items = [];
+  constructor() { this.#items = []; }
+  add(x) { this.#items.push(x); return this; }
+  *[Symbol.iterator]() { yield* this.#items; }
+  async *[Symbol.asyncIterator]() { yield 1; }
+  [KEY]() { return 1; }
+  static ["make" + "Bag"]() { return new Bag(); }
+  get [util.inspect.custom]() { return 1; }
+  set [a.b](v) { this.v = v; }
+  [f(1)]() { return 2; }
+  [`t${KEY}`] = 3;
+  static [KEY + "s"] = 4;
+  get size() { return this.#items.length; }
+}
+const o = { [KEY + 1]: 2, [Symbol.iterator]: function* () {}, get [a.b]() { return 1; }, ["x" + "y"]() {} };
+for (const v of new Bag().add(1)) console.log(v, o);
+'''),
+    ("ft_accessors_static.js", '''class Temp {
+  static unit = "C";
+  static #made = 0;
+  #c = 0;
+  static { Temp.#made = 1; Temp.table = new Map(); }
+  static { if (Temp.unit) { Temp.ok = true; } }
+  get c() { return this.#c; }
+  set c(v) { if (v < -273) throw new RangeError("low"); this.#c = v; }
+  get f() { return this.#c * 9 / 5 + 32; }
+  static get made() { return Temp.#made; }
+  static async load(u) { const r = await fetch(u); return r.json(); }
+  static *range(n) { for (let i = 0; i < n; i++) yield i; }
+  async *stream() { for await (const x of src()) yield x; }
+  #secret() { return 1; }
+  has(o) { return #c in o; }
+}
+const lit = {
+  _v: 1,
+  get v() { return this._v; },
+  set v(x) { this._v = x; },
+  *gen() { yield 1; },
+  async am() { await 1; },
+  async *ag() { yield 2; },
+  "quoted key"() { return 3; },
+  42() { return 4; },
+};
+lit.v = Temp.made + new Temp().f;
+'''),
+    ("ft_labels_switch.js", '''let n = 0;
+outer: for (let i = 0; i < 3; i++) {
+  inner: for (let j = 0; j < 3; j++) {
+    if (j === 1) continue outer;
+    if (i === 2) break outer;
+    switch (j) {
+      case 0: n++; continue inner;
+      case 1: { n--; break; }
+      default: break outer;
+    }
+  }
+}
+blk: { n++; if (n) break blk; n--; }
+loop: while (true) { do { n++; if (n > 5) break loop; } while (n < 10); }
+for (;;) { break; }
+for (var k in { a: 1 }) if (k) continue; else break;
+if (n) ; else n = 1;
+'''),
+    ("ft_nested_classes.js", '''class Outer {
+  static Inner = class Inner2 extends Object { m() { return class Deep { d() { return 1; } }; } };
+  make() {
+    class Local extends Outer.Inner { m() { return super.m(); } }
+    const Anon = class { static s() { return new.target; } };
+    return [new Local(), new Anon(), function named() { return this; }, () => new Outer()];
+  }
+}
+function wrap() {
+  function inner() { return function () { return () => inner; }; }
+  return inner()()();
+}
+(function iife(g) { "use strict"; g.x = 1; })(globalThis);
+(() => { var hidden = 2; return hidden; })();
+var mixin = (Base) => class extends Base { mixed() { return true; } };
+class M extends mixin(Outer) {}
+new M().mixed();
+'''),
+    ("ft_destructuring_ops.js", '''function f({ a, b: { c = 1, ...rest } = {}, ...others }, [x, , y = 2, ...zs] = [], ...args) {
+  return a + c + x + y + zs.length + args.length + Object.keys(rest).length + Object.keys(others).length;
+}
+let p, q, r;
+[p, q = 1] = [1];
+({ p, q: r = 2 } = { p: 1 });
+[p, q] = [q, p];
+const t = tag`a${p}b${q}c`, re = /a[/]b/giu.test("x"), big = 12n ** 2n;
+r = p?.a?.[q]?.(1) ?? (p ||= 1, q &&= 2, r ??= 3);
+r = typeof p === "undefined" ? void 0 : "a" in o ? p instanceof Object : delete o.a;
+r = (1, 2, p) + +"3" - -q + ~r + !r + (p >>> 1) + (p << 2) + (p ** q) % 3;
+r = [...[1, 2], ...new Set([3])].map((v, i) => ({ v, i, [v]: i }));
+r = `outer ${`inner ${p + `deep ${q}`}`}`;
+function tag(s, ...v) { return s.raw.join("") + v.length; }
+'''),
+    ("ft_async_errors.js", '''async function run(urls) {
+  try {
+    for await (const u of urls) { await step(u); }
+    const [a, b] = await Promise.all([step(1), step(2)]);
+    return a + b;
+  } catch {
+    return -1;
+  } finally {
+    await cleanup();
+  }
+}
+function step(u) {
+  return new Promise((resolve, reject) => {
+    try { if (!u) throw new TypeError("u"); resolve(u); }
+    catch (e) { if (e instanceof TypeError) reject(e); else throw e; }
+    finally { done(); }
+  });
+}
+function* co() { const x = yield 1; try { yield x; } finally { yield 3; } return 4; }
+run([]).then(v => v, e => { throw e; }).catch(console.error).finally(() => 0);
+'''),
+    ("ft_modules.js", '''import def, * as everything from "./a.js";
+import { default as d2, b as bee, c } from "./b.js";
+import "./side-effect.js";
+export * from "./c.js";
+export * as ns from "./d.js";
+export { x as y, z } from "./e.js";
+export const one = 1, two = 2;
+export function fn() {}
+export async function afn() { const m = await import("./lazy.js"); return m.default + import.meta.url; }
+export class K {}
+export default class extends K { m() { return def + bee + c + d2 + everything; } }
+'''),
+]
+
+FEATURES["typescript"] = [
+    ("ft_computed_members.ts", '''const KEY = "k";
+class Bag<T> implements Iterable<T> {
+  static #count = 0;
+  #items: T[] = [];
+  add(x: T): this { this.#items.push(x); return this; }
+  *[Symbol.iterator](): Iterator<T> { yield* this.#items; }
+  async *[Symbol.asyncIterator]() { yield 1; }
+  [KEY](): number { return 1; }
+  static ["make" + "Bag"]() { return new Bag<number>(); }
+  get [util.inspect.custom]() { return 1; }
+  set [a.b](v: number) { this.v = v; }
+  [f(1)]() { return 2; }
+  static [KEY + "s"] = 4;
+  get size(): number { return this.#items.length; }
+  v = 0;
+}
+const o = { [KEY + 1]: 2, [Symbol.iterator]: function* () {}, get [a.b]() { return 1; }, ["x" + "y"]() {} };
+for (const v of new Bag<number>().add(1)) console.log(v, o);
+'''),
+    ("ft_decorators.ts", '''function log(t: any, k?: string, d?: PropertyDescriptor): any { return d; }
+function tagged(name: string) { return (c: Function) => { (c as any).tag = name; }; }
+@tagged("svc")
+@log
+class Service<T extends object = {}> {
+  @log static instances = 0;
+  @log protected readonly name: string;
+  private cache?: Map<string, T>;
+  declare ambient: number;
+  constructor(name: string, public url: string, private readonly retries = 3, protected opt?: T) {
+    this.name = name;
+    Service.instances++;
+  }
+  fetch(id: string): Promise<T> { return Promise.reject(id); }
+  protected get kind(): string { return "svc"; }
+  @log get label(): string { return `${this.kind}:${this.name}`; }
+  set label(v: string) { }
+  @log method(@log p: number, q?: string, ...r: boolean[]): void { }
+  static create<U extends Service<any>>(this: new (n: string, u: string) => U, n: string): U { return new this(n, ""); }
+  overload(a: string): string;
+  overload(a: number): number;
+  overload(a: any): any { return a; }
+}
+class Impl extends Service<{ id: string }> {
+  protected get kind() { return "impl"; }
+  async fetch(id: string) { return { id }; }
+  override toString(): string { return super.label; }
+}
+'''),
+    ("ft_types_enums_ns.ts", '''const enum Dir { Up = 1, Down, Left = Down << 1, Right = "R".length }
+enum Str { A = "a", B = "b" }
+declare enum Amb { X }
+type Fn<T> = (x: T) => T extends string ? "s" : never;
+type Keys = keyof typeof Str;
+type Mapped = { readonly [K in Keys]?: Str };
+interface Dict<V> { [key: string]: V; (x: number): string; new (x: string): Dict<V>; readonly size: number; method?(): void; }
+interface Dict<V> { extra: V }
+namespace Outer.Inner { export namespace Deep { export const v = 1; export function f() { return v; } } export class C {} }
+declare module "ext" { export function g(x: number): string; }
+declare global { interface Window { mine: number } }
+declare function ambient(x: number): void;
+function isStr(x: unknown): x is string { return typeof x === "string"; }
+function assertNum(x: unknown): asserts x is number { if (typeof x !== "number") throw new Error(); }
+let tup: [a: number, b?: string, ...rest: boolean[]] = [1];
+let u = <const>["a", "b"], w = { a: 1 } satisfies Record<string, number>, nn = tup[1]!.length;
+let g = Outer.Inner.Deep.f() as unknown as string;
+export type { Fn, Keys };
+export = isStr;
+'''),
+    ("ft_abstract.ts", '''abstract class Shape<T = number> {
+  protected abstract readonly sides: T;
+  abstract area(): number;
+  abstract get name(): string;
+  describe(): string { return `${this.name}:${this.area()}`; }
+  static unit(): Shape { return new Sq(1); }
+}
+class Sq extends Shape { sides = 4; constructor(private s: number) { super(); } area() { return this.s ** 2; } get name() { return "sq"; } }
+export default abstract class Base { abstract run(): void; }
+'''),
+    ("ft_optional_catch.ts", '''let n = 0;
+try { throw new Error("x"); } catch { n = 0; } finally { n = 1; }
+try { n++; } catch (e: unknown) { if (e instanceof Error) n--; }
+try { n++; } finally { n--; }
+'''),
+    ("ft_labels_switch.ts", '''let n: number = 0;
+outer: for (let i = 0; i < 3; i++) {
+  inner: for (const j of [0, 1, 2]) {
+    if (j === 1) continue outer;
+    if (i === 2) break outer;
+    switch (j) {
+      case 0: n++; continue inner;
+      case 1: { n--; break; }
+      default: break outer;
+    }
+  }
+}
+blk: { n++; if (n) break blk; n--; }
+loop: while (true) { do { n++; if (n > 5) break loop; } while (n < 10); }
+for (const k in { a: 1 }) { if (k) continue; else break; }
+'''),
+    ("ft_nested_classes.ts", '''class Outer {
+  static Inner = class Inner2 { m() { return class Deep { d(): number { return 1; } }; } };
+  make() {
+    class Local extends Outer.Inner { m() { return super.m(); } }
+    const Anon = class { static s() { return 1; } };
+    return [new Local(), new Anon(), function named(this: any) { return this; }, () => new Outer()];
+  }
+}
+function wrap() { function inner() { return function () { return () => inner; }; } return inner()()(); }
+(function iife(g: any) { g.x = 1; })(globalThis);
+const mixin = <B extends new (...a: any[]) => {}>(Base: B) => class extends Base { mixed() { return true; } };
+class M extends mixin(Outer) {}
+new M().mixed();
+'''),
+    ("ft_component.tsx", '''import * as React from "react";
+type P = { items: string[]; onPick?: (s: string) => void };
+export class List extends React.Component<P, { sel: number }> {
+  state = { sel: 0 };
+  render() {
+    const { items, onPick } = this.props;
+    return (
+      <ul className="l" {...{ id: "x" }}>
+        {items.map((it, i) => <li key={i} onClick={() => onPick?.(it)}>{i === this.state.sel ? <b>{it}</b> : it}</li>)}
+        <></>
+      </ul>
+    );
+  }
+}
+'''),
+]
+
+FEATURES["python"] = [
+    ("ft_decorators_nested.py", '''import functools
+
+def deco(arg=None, *, flag=False):
+    def outer(fn):
+        @functools.wraps(fn)
+        def inner(*a, **k):
+            return fn(*a, **k)
+        return inner
+    return outer
+
+class Meta(type):
+    def __new__(mcls, name, bases, ns, **kw):
+        return super().__new__(mcls, name, bases, ns)
+
+@deco("c")
+class Outer(metaclass=Meta, flag=True):
+    """doc"""
+    limit: int = 3
+    names = [n for n in ("a", "b")]
+    if limit > 2:
+        big = True
+    else:
+        big = False
+    for _i in range(2):
+        total = _i
+
+    class Inner:
+        class Deep(dict):
+            depth = 2
+            def m(self):
+                return Outer.Inner.Deep.depth
+        def make(self):
+            class Local(Outer.Inner.Deep):
+                pass
+            return Local()
+
+    @property
+    def value(self):
+        return self._v
+
+    @value.setter
+    def value(self, v):
+        self._v = v
+
+    @value.deleter
+    def value(self):
+        del self._v
+
+    @staticmethod
+    @deco(flag=True)
+    def s(x, /, y, *, z=1):
+        return x + y + z
+
+    @classmethod
+    def c(cls, *a: int, **k: str) -> "Outer":
+        return cls()
+
+    def __getitem__(self, i): return self.names[i]
+    def __setitem__(self, i, v): self.names[i] = v
+    async def am(self): return [x async for x in self.gen() if x]
+    async def gen(self):
+        yield 1
+
+o = Outer()
+o.value = o[0]; o[1] = Outer.s(1, 2, z=3)
+'''),
+    ("ft_match_walrus.py", '''from dataclasses import dataclass
+
+@dataclass(frozen=True)
+class Point:
+    x: int
+    y: int = 0
+
+def where(p, data):
+    match p:
+        case Point(x=0, y=0):
+            return "origin"
+        case Point(x=0, y=yy) | Point(x=yy, y=0) if yy > 0:
+            return f"axis {yy}"
+        case [Point(x=a), *rest] if (n := len(rest)) > 1:
+            return a + n
+        case {"k": v, **others}:
+            return v
+        case str() | bytes() as s:
+            return s
+        case (1 | 2) as small, _:
+            return small
+        case _:
+            pass
+    while (chunk := data.read(4)):
+        if any((hit := c) == 0 for c in chunk):
+            return hit
+    return [y for x in range(3) if (y := x * 2) > 1]
+
+try:
+    where(Point(1), None)
+except* (ValueError, TypeError) as eg:
+    print(eg.exceptions)
+except* OSError:
+    raise
+'''),
+    ("ft_scopes_lambdas.py", '''counter = 0
+registry = {}
+
+def make(n):
+    total = 0
+    def add(k=n, *more, sep=", ", **kw):
+        nonlocal total
+        global counter
+        total += k + sum(more)
+        counter += 1
+        return (lambda a, b=total, *c, d=1, **e: a + b + d)(k)
+    registry[n] = add
+    return add, (lambda: total), [lambda i=i: i * n for i in range(3)]
+
+gen = (x * y for x in range(3) for y in range(x) if y % 2 if x)
+nested = {k: {v for v in range(k)} for k in range(3)}
+matrix = [[r * c for c in range(3)] for r in range(3)]
+a, *b, c = *range(3), *"xy"
+first = matrix[0][1:][::-1][0] if matrix else None
+chain = 0 < a <= c != 5 is not None not in ()
+s = f"{a!r:>{c}} {nested[2]!s} {'q' if a else "dq"} {{literal}} {a + (lambda: 1)():03d}"
+print(*b, sep="", **{"end": ""}); del a, registry[1] if 1 in registry else counter
+assert chain, s
+exec("x = 1"); eval("x")
+if __name__ == "__main__":
+    import sys as _sys, os.path as _p
+    from . import sibling, other as o2
+    from ..pkg.mod import (name1, name2 as n2,)
+    _sys.exit(make(1)[0]())
+'''),
+    ("ft_docstring_only.py", '''"""Only a module docstring and comments.
+
+Nothing executable apart from the string expression itself.
+"""
+# trailing comment
+'''),
+]
+
+FEATURES["java"] = [
+    ("FtNested.java", '''package ft;
+
+import java.util.*;
+import java.util.function.*;
+
+public class FtNested {
+    static int counter;
+    static final List<String> NAMES = new ArrayList<>();
+    static { counter = 1; NAMES.add("a"); for (int i = 0; i < 2; i++) { counter += i; } }
+    int inst = 1;
+    { inst = counter + 1; if (inst > 1) { inst--; } }
+    static { try { counter = Integer.parseInt("2"); } catch (NumberFormatException e) { counter = 0; } }
+
+    static class StaticNested { int v = counter; static class Deeper { int w = 2; } }
+    class Inner { int q = inst; class InnerInner { int r = q + inst; } }
+    interface Visitor<R> { R visit(FtNested n); default R twice(FtNested n) { visit(n); return visit(n); } static <R> Visitor<R> of(R r) { return n -> r; } private void hidden() {} }
+
+    Object anon() {
+        class Local implements Runnable { int k = inst; public void run() { k++; } }
+        new Local().run();
+        Inner in = this.new Inner();
+        Inner.InnerInner ii = in.new InnerInner();
+        return new Visitor<Integer>() {
+            int seen = ii.r;
+            { seen++; }
+            @Override public Integer visit(FtNested n) { return seen + new Object() { int z = 3; }.z; }
+        };
+    }
+
+    enum Op implements IntBinaryOperator {
+        ADD("+") { public int applyAsInt(int a, int b) { return a + b; } },
+        MUL("*") { public int applyAsInt(int a, int b) { return a * b; } };
+        private final String sym;
+        static final Map<String, Op> BY = new HashMap<>();
+        static { for (Op o : values()) BY.put(o.sym, o); }
+        Op(String s) { sym = s; }
+    }
+}
+'''),
+    ("FtControl.java", '''import java.util.*;
+
+sealed interface Shape permits Circle, Square {}
+record Circle(double r) implements Shape { Circle { if (r < 0) throw new IllegalArgumentException(); } static Circle unit() { return new Circle(1); } double area() { return Math.PI * r * r; } }
+record Square(double s) implements Shape {}
+
+public class FtControl {
+    @SafeVarargs
+    static <T extends Comparable<? super T>> T max(T first, T... rest) {
+        T best = first;
+        outer:
+        for (T t : rest) {
+            inner:
+            for (int i = 0; ; i++) {
+                if (i > 2) continue outer;
+                if (t == null) break outer;
+                if (t.compareTo(best) > 0) { best = t; break inner; }
+            }
+        }
+        return best;
+    }
+
+    static String describe(Object o) {
+        String s = switch (o) {
+            case Circle c when c.r() > 1 -> "big circle";
+            case Circle c -> "circle " + c.area();
+            case Square(double side) -> "square " + side;
+            case Integer i -> { int d = i * 2; yield "int " + d; }
+            case null, default -> "other";
+        };
+        int k = 3;
+        switch (k) { case 1: case 2: k++; default: k--; break; case 3: { k = 0; } }
+        do { k++; } while (k < 2);
+        int[][] grid = new int[2][3]; int[] flat = {1, 2, 3}; char ch = (char) ('a' + 1); long big = 1L << 40;
+        grid[1][2] = flat[flat.length - 1] + (k > 0 ? k > 1 ? 2 : 1 : 0) + ch + (int) big;
+        String text = """
+            block "text"
+            """ + s;
+        var list = new ArrayList<Map.Entry<String, int[]>>();
+        list.forEach(e -> System.out.println(e.getKey()));
+        Runnable r = FtControl::new, q = () -> { synchronized (list) { list.clear(); } };
+        if (o instanceof String str && !str.isEmpty()) return str; else if (!(o instanceof Shape)) return text;
+        try (Scanner sc = new Scanner(System.in)) { return sc.next(); } catch (IllegalStateException | NoSuchElementException e) { throw new RuntimeException(e); } finally { r.run(); q.run(); }
+    }
+}
+'''),
+    ("FtAnnotations.java", '''import java.lang.annotation.*;
+
+@Retention(RetentionPolicy.RUNTIME)
+@Target({ElementType.TYPE, ElementType.METHOD})
+@interface Route { String value() default "/"; String[] methods() default {"GET"}; int order() default 1 + 2; Class<?> type() default Object.class; }
+
+@Route(value = "/x", methods = {"GET", "POST"})
+abstract class FtAnnotations<T> implements Comparable<FtAnnotations<T>> {
+    @Deprecated(since = "1") protected transient volatile int state;
+    @SuppressWarnings({"unchecked", "rawtypes"}) abstract T get() throws Exception;
+    native int fast(int x);
+    strictfp double calc(final double @Route [] xs, int... more) { return xs[0] + more.length; }
+    public int compareTo(FtAnnotations<T> o) { return Integer.compare(state, o.state); }
+}
+'''),
+]
+
+FEATURES["go"] = [
+    ("ft_methods_generics.go", '''package ft
+
+import (
+	"errors"
+	"fmt"
+	"sort"
+)
+
+type Number interface{ ~int | ~float64 }
+type Stack[T any] struct {
+	items []T
+	meta  struct{ name string; tags map[string][]int }
+}
+type Pair[K comparable, V any] struct { Key K; Val V }
+type Handler func(int) (string, error)
+type Alias = Stack[int]
+type Animal interface { Name() string; Speak() (string, error) }
+type Base struct{ ID int `json:"id,omitempty"` }
+type Dog struct { Base; *Stack[string]; name string }
+
+func (s *Stack[T]) Push(v T) *Stack[T] { s.items = append(s.items, v); return s }
+func (s Stack[T]) Len() int            { return len(s.items) }
+func (d Dog) Name() string             { return d.name }
+func (d *Dog) Speak() (out string, err error) {
+	defer func() {
+		if r := recover(); r != nil { err = fmt.Errorf("recovered: %v", r) }
+	}()
+	if d == nil { panic("nil dog") }
+	return "woof", nil
+}
+func Sum[T Number](xs ...T) (total T) { for _, x := range xs { total += x }; return }
+func Map[T, U any](xs []T, f func(T) U) []U { out := make([]U, 0, len(xs)); for _, x := range xs { out = append(out, f(x)) }; return out }
+
+var ErrNone = errors.New("none")
+var handlers = map[string]Handler{"a": func(i int) (string, error) { return fmt.Sprint(i), nil }}
+
+func init() { sort.Ints([]int{2, 1}); handlers["b"] = handlers["a"] }
+
+func use() {
+	d := &Dog{Base: Base{ID: 1}, name: "d"}
+	var a Animal = d
+	speak := d.Speak
+	name := Dog.Name
+	if s, ok := a.(fmt.Stringer); ok { _ = s } else if _, err := speak(); errors.Is(err, ErrNone) { return }
+	anon := struct{ X, Y int }{1, 2}
+	pt := &[]Pair[string, int]{{"a", 1}, {Key: "b"}}
+	_, _, _ = name(*d), anon.X, (*pt)[0].Val
+	_ = Sum(1, 2) + Sum[int]() + Map([]int{1}, func(i int) int { return i })[0]
+}
+'''),
+    ("ft_control.go", '''package ft
+
+import "time"
+
+const (
+	_  = iota
+	KB = 1 << (10 * iota)
+	MB
+)
+
+func control(ch chan int, done <-chan struct{}, out chan<- string) (n int) {
+outer:
+	for i := 0; i < 3; i++ {
+	inner:
+		for j := range [3]int{} {
+			switch {
+			case j == 1:
+				continue outer
+			case i == 2:
+				break outer
+			case j > 5:
+				goto end
+			default:
+				continue inner
+			}
+		}
+	}
+	for n < 10 { n++ }
+	for { break }
+	for range ch { n++ }
+	switch x := n % 3; x {
+	case 0:
+		fallthrough
+	case 1, 2:
+		n--
+	}
+	select {
+	case v, ok := <-ch:
+		if !ok { return }
+		n += v
+	case out <- "s":
+	case <-done:
+		return -1
+	case <-time.After(time.Second):
+	default:
+	}
+	var iface interface{} = n
+	switch t := iface.(type) {
+	case int, int64:
+		_ = t
+	case func() int:
+		n = t()
+	case nil:
+	}
+	go func() { defer close(out); ch <- 1 }()
+	defer func(k int) { n += k }(n)
+	arr := [...]int{2: 1, 4: 2}
+	sl := arr[1:3:4]
+	m := map[[2]int]*[]string{}
+	p := &n
+	*p += len(sl) + len(m) + cap(sl) + KB&^MB
+	func() { n ^= 1 }()
+end:
+	return n
+}
+'''),
+]
+
+FEATURES["c"] = [
+    ("ft_pointers_types.c", '''#include <stddef.h>
+#define COUNT(a) (sizeof(a) / sizeof((a)[0]))
+#define LOG(fmt, ...) printf(fmt, ##__VA_ARGS__)
+#if defined(__GNUC__) && !defined(NDEBUG)
+#  define LIKELY(x) __builtin_expect(!!(x), 1)
+#else
+#  define LIKELY(x) (x)
+#endif
+
+typedef int (*binop_t)(int, int);
+typedef struct node { struct node *next, **prev; union { int i; float f; struct { short lo, hi; }; } u; unsigned flag : 1, kind : 3; char name[8]; } node_t;
+typedef enum { LOW = -1, MID, HIGH = MID + 2 } level_t;
+struct pt { int x, y; };
+static const struct pt origin = { .x = 0, .y = 0 }, table[] = { [0] = {1, 2}, [2] = { .y = 3 } };
+static int add(int a, int b) { return a + b; }
+static binop_t ops[2] = { add, [1] = add };
+int (*pick(int i))(int, int) { return ops[i & 1]; }
+extern int printf(const char *, ...);
+_Static_assert(sizeof(int) >= 2, "int");
+
+int walk(node_t *restrict head, const char *const *argv, int argc) {
+    register int n = 0;
+    volatile long total = 0L;
+    node_t local = { .next = head, .u.i = 3, .name = "ab" }, *p = &local;
+    for (p = head; p && p->next; p = p->next) { total += p->u.i + (*p).flag; n++; }
+    int (*arr)[3] = (int (*)[3]) 0, *q = (int[]){1, 2, 3}, m[2][3] = {{1}, {0, 2}};
+    struct pt c = (struct pt){ .x = n, .y = q[1] };
+    total += pick(n)(c.x, c.y) + (*ops[0])(1, 2) + m[1][1] + *(q + 2) + q[n % 3] + COUNT(table);
+    total = LIKELY(total) ? (long) sizeof(node_t) + offsetof(node_t, u) : sizeof *p;
+    char *s = "ab" "cd", ch = '\\n', w = s[1];
+    LOG("%s %c %ld\\n", argv[argc - 1], ch + w, total);
+    return (int) total, n;
+}
+'''),
+    ("ft_control.c", '''int collatz(int n, int *steps) {
+    int k = 0;
+again:
+    if (n <= 1) goto done;
+    switch (n & 3) {
+        case 0: n >>= 1; /* fall through */
+        case 2: n >>= 1; break;
+        case 1: case 3: { n = 3 * n + 1; break; }
+        default: ;
+    }
+    k++;
+    do { if (k > 1000) goto done; } while (0);
+    for (int i = 0, j = 10; i < j; i++, j--) { if (i == 3) continue; else if (j == 4) break; }
+    for (;;) { break; }
+    while (k < 0) k++;
+    goto again;
+done:
+    if (steps) *steps = k; else return -1;
+    return n == 1 ? k > 10 ? 2 : 1 : 0;
+}
+#ifdef FEATURE
+int feature(void) { return 1; }
+#elif defined(OTHER)
+int feature(void) { return 2; }
+#else
+int feature(void) { return 0; }
+#endif
+int old_style(a, b) int a; char b; { return a + b; }
+'''),
+    ("ft_prototypes.h", '''#ifndef FT_PROTOTYPES_H
+#define FT_PROTOTYPES_H
+#define FT_VERSION 3
+#define FT_MAX(a, b) ((a) > (b) ? (a) : (b))
+#ifdef __cplusplus
+extern "C" {
+#endif
+int ft_open(const char *path, int flags);
+void ft_close(int fd);
+long ft_read(int fd, void *buf, unsigned long n);
+#ifdef __cplusplus
+}
+#endif
+#endif /* FT_PROTOTYPES_H */
+'''),
+]
+
+FEATURES["php"] = [
+    ("ft_oop.php", '''<?php
+declare(strict_types=1);
+
+namespace Ft\\Oop {
+
+use Countable, ArrayAccess as AA;
+use function strlen, array_map as amap;
+use const PHP_EOL;
+
+#[\\Attribute(\\Attribute::TARGET_CLASS)]
+final class Route { public function __construct(public string $path = "/", public array $methods = ["GET"]) {} }
+
+enum Suit: string implements \\JsonSerializable {
+    case Hearts = "H"; case Spades = "S";
+    const Wild = self::Spades;
+    public function color(): string { return match($this) { self::Hearts => "red", self::Spades => "black" }; }
+    public static function fromChar(string $c): self { return self::from($c); }
+    public function jsonSerialize(): mixed { return $this->value; }
+}
+
+interface HasArea { const UNITS = "cm"; public function area(): float; }
+trait Counts { private static int $n = 0; public static function made(): int { return self::$n; } protected function bump(): void { static::$n++; } abstract public function id(): int; }
+trait Names { public function name(): string { return static::class; } }
+
+#[Route("/shape", methods: ["GET", "POST"])]
+abstract class Shape implements HasArea, Countable {
+    use Counts, Names { Names::name as protected baseName; Counts::made insteadof Names; }
+    public function __construct(protected readonly float $w = 1.0, private ?Shape $parent = null, int|string ...$tags) { $this->bump(); }
+    abstract public function area(): float;
+    public function count(): int { return 1; }
+    public function id(): int { return spl_object_id($this); }
+    public function __get($n) { return $this->$n ?? null; }
+    public static function __callStatic($n, $a) { return new static(...$a); }
+    public function __toString(): string { return $this->baseName() . PHP_EOL; }
+}
+
+$anon = new class(2.0) extends Shape { public function area(): float { return $this->w ** 2; } };
+$f = strlen(...);
+$g = $anon->area(...);
+$h = static fn(int $x): int => $x + 1;
+echo $anon?->parent?->area() ?? Suit::fromChar("H")->color(), amap($h, [1, 2])[0], $f("ab"), $g();
+}
+
+namespace Ft\\Other {
+    function helper(): iterable { yield 1; yield "k" => 2; $x = yield; yield from [3, 4]; return $x; }
+    foreach (helper() as $k => $v) { echo $k, $v; }
+}
+'''),
+    ("ft_control.php", '''<?php
+$n = 0; $data = ["a" => [1, 2], "b" => ["x" => ["y" => 3]]];
+for ($i = 0; $i < 3; $i++) {
+    foreach ($data as $k => [$first, $second]) {
+        switch ($k) {
+            case "a": $n += $first; continue 2;
+            case "b": break 2;
+            default: continue 3;
+        }
+    }
+    while (true) { do { $n++; if ($n > 5) break 2; } while ($n < 10); }
+}
+["b" => ["x" => ["y" => $deep]]] = $data;
+[, $two] = $data["a"]; [$n, $two] = [$two, $n];
+foreach ($data as &$ref): $ref[] = 0; endforeach; unset($ref);
+for ($i = 0; $i < 2; $i++): if ($i): continue; endif; endfor;
+switch ($n): case 1: echo 1; break; default: echo 2; endswitch;
+$s = <<<EOT
+heredoc {$data["a"][0]} $n {$deep}
+EOT;
+$t = <<<'RAW'
+nowdoc $n
+RAW;
+goto end; $n = -1;
+end:
+$v = "n"; $$v = 1; $obj = new stdClass; $obj->{"dyn" . $v} = 2; $m = "strlen"; $m($s); [$obj, "m"];
+$r = $n <=> 1 ?: ($n ?? 0) . "s" . PHP_EOL; $n **= 2; $n ??= 1; $n .= (string)(int)"3" . @$undefined;
+try { throw new DomainException("x", 1, null); } catch (DomainException | LengthException $e) { echo $e; } finally { echo `ls`; }
+function &refgen(array &$a, callable|null $cb = null, int ...$rest): ?int { static $c = 0; global $n; $c++; return $a[0]; }
+'''),
+    ("ft_template.php", '''<!DOCTYPE html>
+<html>
+<head><title>static page</title></head>
+<body>
+<p>No PHP tag anywhere in this template.</p>
+</body>
+</html>
+'''),
+    ("ft_mixed_template.php", '''<html><body>
+<?php if ($user): ?>
+  <p>Hello <?= htmlspecialchars($user->name) ?></p>
+  <?php foreach ($items as $i => $item): ?>
+    <li class="<?= $i % 2 ? 'odd' : 'even' ?>"><?php echo $item; ?></li>
+  <?php endforeach; ?>
+<?php else: ?>
+  <p>Nobody</p>
+<?php endif ?>
+</body></html>
+'''),
+]
+
+FEATURES["ruby"] = [
+    ("ft_classes.rb", '''# frozen_string_literal: true
+module Ft
+  VERSION = "1"
+  module Util
+    def self.helper(x) = x * 2
+    def util_m; :u; end
+  end
+
+  class Base
+    include Comparable
+    extend Util
+    attr_reader :id
+    attr_writer :name
+    @@count = 0
+    @registry = {}
+    LIMIT = 3
+
+    class << self
+      attr_accessor :registry
+      def create(*args, **kw, &blk) = new(*args, **kw).tap { |o| blk&.call(o) }
+      private def secret = 42
+    end
+
+    def initialize(id, name: "n", **rest)
+      @id, @name = id, name
+      @@count += 1
+      self.class.registry[id] = self
+    end
+
+    def <=>(other) = id <=> other.id
+    def +(other) = self.class.new(id + other.id)
+    def [](k) = instance_variable_get("@#{k}")
+    def []=(k, v)
+      instance_variable_set("@#{k}", v)
+    end
+    def -@ = self.class.new(-id)
+    def call(*) = id
+    def to_s = "#<#{self.class.name} #{@id}>"
+    def method_missing(name, *args, &blk)
+      name.to_s.start_with?("get_") ? self[name.to_s.sub("get_", "")] : super
+    end
+    def respond_to_missing?(n, p = false) = n.to_s.start_with?("get_") || super
+
+    protected
+    def prot; end
+    private
+    def priv; end
+    public
+    alias_method :ident, :id
+    alias old_to_s to_s
+    undef_method :prot rescue nil
+  end
+
+  class Child < Base
+    class Nested < StandardError; def message = "nested"; end
+    Inner = Struct.new(:a, :b) do
+      def sum = a + b
+    end
+    def initialize(id, extra = nil, *rest, key:, opt: 1, **kw, &blk)
+      super(id, **kw)
+      @extra = extra || yield(self) if block_given?
+    end
+  end
+end
+c = Ft::Child.create(1, key: 2) { |o| o.name = "x" }
+puts c.get_id, (c + c).to_s, -c, c.(1), Ft::Base::LIMIT, Ft::Util.helper(2)
+'''),
+    ("ft_control.rb", '''n = 0
+data = { a: [1, 2], "b" => { x: { y: 3 } } }
+for i in 0...3 do
+  [0, 1, 2].each_with_index do |j, idx|
+    next if j == 1
+    break if i == 2
+    redo if false
+    n += j + idx
+  end
+end
+n += 1 while n < 5
+n -= 1 until n < 3
+begin n += 1 end while n < 4
+loop do n += 1; break if n > 6 end
+1.upto(3) { |k| n += k }
+3.times.map { _1 * 2 }.each_slice(2).to_a
+case data
+in { a: [Integer => first, *rest], "b" => { x: { y: } } } if first > 0
+  n += first + y + rest.size
+in [] | nil
+  n = 0
+else
+  n = -1
+end
+case n when 0..3 then n = 1 when Integer, Float then n = 2 else n = 3 end
+result = if n > 1 then :big elsif n == 1 then :one else :small end
+value = begin Integer("x") rescue 0 end
+def risky(x)
+  raise ArgumentError, "neg" if x < 0
+  yield x
+rescue ArgumentError, TypeError => e
+  retry if (x += 1) < 0
+  e.message
+rescue StandardError
+  raise
+else
+  :ok
+ensure
+  puts "done"
+end
+risky(1) { |v| v } => outcome
+sq = ->(x, y = 1, *z, k: 2, &b) { x * y + k }
+pr = proc { |a, (b, c), *d| [a, b, c, d] }
+m = 5.method(:+).to_proc >> sq.curry[1]
+a, (b, *c), d = 1, [2, 3, 4], 5
+a, b = b, a
+h = { a:, "s": 1, **data, sq => pr }
+s = format("%05.1f|%-3s", 1.5, :x) + "a#{"b#{n}"}" + 'c' "d" + ?e + :"q s".to_s + %w[x y].join + %i[p q].inspect + <<~ONE + <<-'TWO'
+  one #{n}
+ONE
+  two #{n}
+  TWO
+n = n.zero? ? 1 : n&.succ || 0; n ||= 1; n &&= n + 1
+puts s =~ /(?<num>\\d+)/ ? $~[:num] : $1, __method__.inspect, defined?(zzz), __FILE__, __LINE__
+BEGIN { $start = 1 }
+END { puts $start }
+__END__
+data section
+'''),
+]
+
+FEATURES["smali"] = [
+    ("FtFields.smali", '''.class public final Lft/FtFields;
+.super Ljava/lang/Object;
+.source "FtFields.java"
+
+# interfaces
+.implements Ljava/lang/Runnable;
+.implements Ljava/lang/Comparable;
+
+# annotations
+.annotation system Ldalvik/annotation/Signature;
+    value = {
+        "Ljava/lang/Object;",
+        "Ljava/lang/Comparable<",
+        "Lft/FtFields;",
+        ">;"
+    }
+.end annotation
+
+.annotation system Ldalvik/annotation/MemberClasses;
+    value = {
+        Lft/FtFields$Inner;
+    }
+.end annotation
+
+# static fields
+.field public static final TAG:Ljava/lang/String; = "ft"
+.field private static final LIMIT:J = 0x7fffffffffffffffL
+.field static final PI:F = 3.14f
+.field static final FLAG:Z = true
+.field static final CH:C = 'c'
+.field private static volatile instance:Lft/FtFields;
+
+# instance fields
+.field private final values:[I
+.field protected names:[[Ljava/lang/String;
+.field public transient count:I
+
+.field private listener:Ljava/lang/Runnable;
+    .annotation runtime Ljavax/inject/Inject;
+    .end annotation
+    .annotation build Landroidx/annotation/Nullable;
+        value = "x"
+        sub = .subannotation Lft/Sub; name = "n" .end subannotation
+    .end annotation
+.end field
+
+.method static constructor <clinit>()V
+    .registers 1
+    const/4 v0, 0x0
+    sput-object v0, Lft/FtFields;->instance:Lft/FtFields;
+    return-void
+.end method
+
+.method public constructor <init>([I)V
+    .registers 3
+    .param p1, "values"    # [I
+    .prologue
+    .line 10
+    invoke-direct {p0}, Ljava/lang/Object;-><init>()V
+    .line 11
+    iput-object p1, p0, Lft/FtFields;->values:[I
+    const/4 v0, 0x0
+    iput v0, p0, Lft/FtFields;->count:I
+    return-void
+.end method
+
+.method public abstract native fast(I)I
+.end method
+
+.method public bridge synthetic compareTo(Ljava/lang/Object;)I
+    .registers 3
+    check-cast p1, Lft/FtFields;
+    invoke-virtual {p0, p1}, Lft/FtFields;->compareTo(Lft/FtFields;)I
+    move-result v0
+    return v0
+.end method
+
+.method public run()V
+    .registers 1
+    return-void
+.end method
+'''),
+    ("FtCode.smali", '''.class public Lft/FtCode;
+.super Ljava/lang/Object;
+
+.method public static varargs work(I[Ljava/lang/Object;)J
+    .locals 8
+    .param p0, "n"    # I
+    .annotation system Ldalvik/annotation/Throws;
+        value = {
+            Ljava/io/IOException;
+        }
+    .end annotation
+    .prologue
+    const-wide/16 v0, 0x0
+    const-wide v2, 0x3ff8000000000000L    # 1.5
+    const/high16 v4, 0x3f800000    # 1.0f
+    const-class v5, Ljava/lang/String;
+    const-string/jumbo v6, "big"
+    new-array v7, p0, [I
+    array-length v4, v7
+    :try_start_0
+    monitor-enter p1
+    :try_start_1
+    aget v5, v7, v4
+    instance-of v6, v5, Ljava/lang/Number;
+    if-eqz v6, :cond_0
+    check-cast v5, Ljava/lang/Number;
+    invoke-virtual {v5}, Ljava/lang/Number;->longValue()J
+    move-result-wide v0
+    :cond_0
+    monitor-exit p1
+    :try_end_1
+    int-to-long v2, p0
+    add-long/2addr v0, v2
+    :goto_0
+    invoke-static/range {v0 .. v1}, Ljava/lang/Long;->valueOf(J)Ljava/lang/Long;
+    move-result-object v5
+    invoke-interface {v5}, Ljava/lang/Comparable;->hashCode()I
+    cmp-long v4, v0, v2
+    if-lez v4, :cond_1
+    neg-long v0, v0
+    :cond_1
+    return-wide v0
+    :sswitch_0
+    const-wide/16 v0, 0x1
+    goto :goto_0
+    :sswitch_1
+    shl-long/2addr v0, p0
+    goto :goto_0
+    :try_end_0
+    :catchall_0
+    move-exception v4
+    monitor-exit p1
+    throw v4
+    :catch_0
+    move-exception v4
+    const-wide/16 v0, -0x1
+    return-wide v0
+    :catch_1
+    move-exception v4
+    new-instance v5, Ljava/io/IOException;
+    invoke-direct {v5, v4}, Ljava/io/IOException;-><init>(Ljava/lang/Throwable;)V
+    throw v5
+    nop
+.end method
+'''),
+    ("FtArrayData.smali", '''.class public Lft/FtArrayData;
+.super Ljava/lang/Object;
+
+.method public static table()[I
+    .registers 2
+    const/4 v0, 0x3
+    new-array v1, v0, [I
+    fill-array-data v1, :array_0
+    return-object v1
+    :array_0
+    .array-data 4
+        0x1
+        0x2
+        -0x3
+    .end array-data
+.end method
+'''),
+    ("FtSwitch.smali", '''.class public Lft/FtSwitch;
+.super Ljava/lang/Object;
+
+.method public static pick(I)I
+    .registers 2
+    sparse-switch p0, :sswitch_data_0
+    const/4 v0, -0x1
+    :goto_0
+    return v0
+    :sswitch_0
+    const/4 v0, 0x1
+    goto :goto_0
+    :sswitch_1
+    const/16 v0, 0x64
+    goto :goto_0
+    :sswitch_data_0
+    .sparse-switch
+        0x1 -> :sswitch_0
+        0x64 -> :sswitch_1
+    .end sparse-switch
+.end method
+'''),
+    ("FtObjects.smali", '''.class public Lft/FtObjects;
+.super Ljava/lang/Object;
+
+.method public static first([Ljava/lang/Object;I)Ljava/lang/Object;
+    .registers 4
+    :try_start_0
+    aget-object v0, p0, p1
+    aput-object v0, p0, p1
+    :try_end_0
+    .catchall {:try_start_0 .. :try_end_0} :handler
+    .catch Ljava/lang/RuntimeException; {:try_start_0 .. :try_end_0} :handler
+    return-object v0
+    :handler
+    move-exception v1
+    const/4 v0, 0x0
+    return-object v0
+.end method
+'''),
+    ("FtEnum.smali", '''.class public final enum Lft/FtEnum;
+.super Ljava/lang/Enum;
+
+.field public static final enum A:Lft/FtEnum;
+.field public static final enum B:Lft/FtEnum;
+.field private static final synthetic $VALUES:[Lft/FtEnum;
+
+.method static constructor <clinit>()V
+    .registers 4
+    new-instance v0, Lft/FtEnum;
+    const-string v1, "A"
+    const/4 v2, 0x0
+    invoke-direct {v0, v1, v2}, Lft/FtEnum;-><init>(Ljava/lang/String;I)V
+    sput-object v0, Lft/FtEnum;->A:Lft/FtEnum;
+    const/4 v0, 0x2
+    new-array v0, v0, [Lft/FtEnum;
+    sget-object v1, Lft/FtEnum;->A:Lft/FtEnum;
+    aput-object v1, v0, v2
+    sput-object v0, Lft/FtEnum;->$VALUES:[Lft/FtEnum;
+    return-void
+.end method
+
+.method private constructor <init>(Ljava/lang/String;I)V
+    .registers 3
+    invoke-direct {p0, p1, p2}, Ljava/lang/Enum;-><init>(Ljava/lang/String;I)V
+    return-void
+.end method
+'''),
+]
+
+FEATURES["llvm"] = [
+    ("ft_types_memory.ll", '''; ModuleID = 'ft'
+source_filename = "ft.c"
+target triple = "x86_64-pc-linux-gnu"
+
+%struct.node = type { i32, %struct.node*, [4 x i8], { i16, i16 } }
+%union.u = type { double }
+%opaque = type opaque
+
+@.str = private unnamed_addr constant [6 x i8] c"hi %d\\00", align 1
+@counter = internal global i32 0, align 4
+@table = dso_local constant [3 x i32] [i32 1, i32 2, i32 3], align 4
+@head = common global %struct.node* null, align 8
+@fp = global i32 (i32, i32)* @add, align 8
+@pi = constant double 0x400921FB54442D18
+@tiny = constant float 0x3FB99999A0000000
+@alias_add = alias i32 (i32, i32), i32 (i32, i32)* @add
+@llvm.global_ctors = appending global [1 x { i32, void ()*, i8* }] [{ i32, void ()*, i8* } { i32 65535, void ()* @ctor, i8* null }]
+
+declare i32 @printf(i8* nocapture readonly, ...) #1
+declare noalias i8* @malloc(i64) #1
+declare void @llvm.memset.p0i8.i64(i8* nocapture writeonly, i8, i64, i1 immarg)
+declare void @llvm.va_start(i8*)
+
+define internal void @ctor() { ret void }
+
+define dso_local i32 @add(i32 %a, i32 %b) local_unnamed_addr #0 {
+  %r = add nsw i32 %a, %b
+  ret i32 %r
+}
+
+define %struct.node* @make(i32 %v) {
+entry:
+  %raw = call noalias i8* @malloc(i64 24)
+  %n = bitcast i8* %raw to %struct.node*
+  %isnull = icmp eq %struct.node* %n, null
+  br i1 %isnull, label %fail, label %ok
+ok:
+  call void @llvm.memset.p0i8.i64(i8* %raw, i8 0, i64 24, i1 false)
+  %vp = getelementptr inbounds %struct.node, %struct.node* %n, i32 0, i32 0
+  store volatile i32 %v, i32* %vp, align 8
+  %np = getelementptr inbounds %struct.node, %struct.node* %n, i64 0, i32 1
+  %old = load %struct.node*, %struct.node** @head, align 8
+  store %struct.node* %old, %struct.node** %np
+  store %struct.node* %n, %struct.node** @head
+  %lo = getelementptr %struct.node, %struct.node* %n, i32 0, i32 3, i32 0
+  store i16 7, i16* %lo
+  %agg = insertvalue { i16, i16 } undef, i16 1, 0
+  %agg2 = insertvalue { i16, i16 } %agg, i16 2, 1
+  %hi = extractvalue { i16, i16 } %agg2, 1
+  %addr = ptrtoint %struct.node* %n to i64
+  %back = inttoptr i64 %addr to %struct.node*
+  %cnt = atomicrmw add i32* @counter, i32 1 seq_cst
+  %cx = cmpxchg i32* @counter, i32 %cnt, i32 0 acq_rel monotonic
+  fence seq_cst
+  ret %struct.node* %back
+fail:
+  unreachable
+}
+
+define i32 @indirect(i32 %x) {
+  %f = load i32 (i32, i32)*, i32 (i32, i32)** @fp
+  %r = tail call i32 %f(i32 %x, i32 1)
+  %p = call i32 (i8*, ...) @printf(i8* getelementptr inbounds ([6 x i8], [6 x i8]* @.str, i64 0, i64 0), i32 %r)
+  ret i32 %p
+}
+
+attributes #0 = { nounwind readnone }
+attributes #1 = { nounwind }
+!llvm.module.flags = !{!0}
+!llvm.ident = !{!1}
+!0 = !{i32 1, !"wchar_size", i32 4}
+!1 = !{!"clang version 10.0.0"}
+'''),
+    ("ft_control_vectors.ll", '''@__gxx_personality_v0 = external global i8
+declare void @may_throw(i32)
+declare i8* @__cxa_begin_catch(i8*)
+declare void @__cxa_end_catch()
+
+define i32 @dispatch(i32 %k, <4 x float> %vec, double %d) personality i8* @__gxx_personality_v0 {
+entry:
+  %small = icmp ult i32 %k, 8
+  %sel = select i1 %small, i32 %k, i32 7
+  switch i32 %sel, label %default [
+    i32 0, label %zero
+    i32 1, label %one
+    i32 2, label %one
+  ]
+zero:
+  invoke void @may_throw(i32 %k) to label %cont unwind label %lpad
+one:
+  %e0 = extractelement <4 x float> %vec, i32 0
+  %v1 = insertelement <4 x float> %vec, float 1.0, i32 1
+  %sh = shufflevector <4 x float> %v1, <4 x float> undef, <4 x i32> <i32 3, i32 2, i32 1, i32 0>
+  %sum = fadd fast <4 x float> %sh, %vec
+  %e1 = extractelement <4 x float> %sum, i32 2
+  %cmp = fcmp olt float %e0, %e1
+  %ext = fpext float %e1 to double
+  %mul = fmul double %ext, %d
+  %neg = fneg double %mul
+  %asint = fptoui double %neg to i32
+  %z = zext i1 %cmp to i32
+  %or = or i32 %asint, %z
+  br label %cont
+default:
+  %rem = urem i32 %k, 3
+  %sh2 = lshr i32 %rem, 1
+  %ash = ashr i32 %k, 2
+  %x = xor i32 %sh2, %ash
+  br label %cont
+cont:
+  %r = phi i32 [ 0, %zero ], [ %or, %one ], [ %x, %default ]
+  ret i32 %r
+lpad:
+  %lp = landingpad { i8*, i32 } catch i8* null
+  %exn = extractvalue { i8*, i32 } %lp, 0
+  %c = call i8* @__cxa_begin_catch(i8* %exn)
+  call void @__cxa_end_catch()
+  resume { i8*, i32 } %lp
+}
+
+define void @loops(i32* %a, i32 %n) {
+entry:
+  %buf = alloca [16 x i32], align 16
+  %dyn = alloca i32, i32 %n
+  br label %head
+head:
+  %i = phi i32 [ 0, %entry ], [ %next, %body ]
+  %done = icmp sge i32 %i, %n
+  br i1 %done, label %exit, label %body
+body:
+  %idx = sext i32 %i to i64
+  %src = getelementptr inbounds i32, i32* %a, i64 %idx
+  %val = load i32, i32* %src, align 4, !tbaa !0
+  %dst = getelementptr inbounds [16 x i32], [16 x i32]* %buf, i64 0, i64 %idx
+  store i32 %val, i32* %dst
+  %next = add nuw nsw i32 %i, 1
+  br label %head, !llvm.loop !1
+exit:
+  call void asm sideeffect "nop", "~{memory}"()
+  ret void
+}
+!0 = !{!"int"}
+!1 = distinct !{!1}
+'''),
+]
+
+# ---------------------------------------------------------------------------------------------------
+# "Empty-lowering" files: they parse fine but lower to ZERO GIR statements (comment / licence only, a header with
+# only prototypes and macros, a template without code, a source cut inside its leading comment).  A few of them go
+# into every project next to ordinary files: a file without statements must yield no GIR and must not disturb the
+# rest of the project.
+
+_LICENCE = ("Copyright (c) 2024 Example Authors\n"
+            "Licensed under the Apache License, Version 2.0 (the \"License\");\n"
+            "you may not use this file except in compliance with the License.")
+
+
+def _line_comment(prefix, text=_LICENCE):
+    return "".join(f"{prefix} {l}\n" for l in text.split("\n"))
+
+
+def _block_comment(text=_LICENCE):
+    return "/*\n" + "".join(f" * {l}\n" for l in text.split("\n")) + " */\n"
+
+
+EMPTY_LOWERING = {
+    "python": [("empty_licence.py", _line_comment("#")), ("empty_comment.py", "# only a comment\n"),
+               ("empty_coding.py", "#!/usr/bin/env python3\n# -*- coding: utf-8 -*-\n\n# nothing else\n")],
+    "javascript": [("empty_licence.js", _block_comment()), ("empty_comment.js", "// only a comment\n"),
+                   ("empty_truncated.js", "/**\n * @file starts a header comment that is never clos")],
+    "typescript": [("empty_licence.ts", _block_comment()), ("empty_comment.ts", "// only a comment\n"),
+                   ("empty_triple.ts", "/// <reference types=\"node\" />\n// nothing else\n")],
+    "java": [("EmptyLicence.java", _block_comment()), ("EmptyComment.java", "// only a comment\n"),
+             ("package-info.java", "/** Package documentation only. */\n")],
+    "go": [("empty_licence.go", _line_comment("//")), ("empty_comment.go", "/* only a comment */\n")],
+    "c": [("empty_licence.c", _block_comment()), ("empty_comment.c", "// only a comment\n"),
+          ("empty_protos.h", "#ifndef E_H\n#define E_H\n#define E_MAX 4\nint e_open(const char *p);\n"
+                             "void e_close(int fd);\n#endif\n"),
+          ("empty_truncated.c", "/* This file starts with a comment that is cut off before it en")],
+    "php": [("empty_template.php", "<html>\n<body><p>static template, no php tag</p></body>\n</html>\n"),
+            ("empty_comment.php", "<?php\n// only a comment\n/* and a block comment */\n"),
+            ("empty_licence.php", "<?php\n" + _block_comment())],
+    "ruby": [("empty_licence.rb", _line_comment("#")), ("empty_comment.rb", "# only a comment\n"),
+             ("empty_block.rb", "=begin\nblock comment only\n=end\n")],
+    "smali": [("EmptyComment.smali", "# only a comment\n"), ("EmptyLicence.smali", _line_comment("#"))],
+    "llvm": [("empty_comment.ll", "; only a comment\n"), ("empty_licence.ll", _line_comment(";"))],
+}
